@@ -243,3 +243,19 @@ pub fn explicit_builtin_scalars() -> Vec<Program> {
     let doc = vec![op("Printed", vec![Sel::obj("animals", vec![t(), fld("id"), fld("name"), fld("born"), on("Cat", vec![fld("lives"), fld("weights")]), on("Dog", vec![fld("barks")])]), fld("count"), Sel::obj("me", vec![fld("ids"), fld("codes")])])];
     vec![prog_on(schema.clone(), doc.clone(), |_| {}), prog_on(schema, doc, |o| { o.normalization_rust = true; })]
 }
+
+/// Known finding K15: GraphQL TYPE names that are Rust keywords (legal GraphQL: `enum type`, `input match`)
+/// are emitted as items of that name.
+pub fn keyword_type_names() -> Vec<Program> {
+    let fld = Sel::field;
+    let mut schema = zoo();
+    schema.defs.push(TypeDef::Enum { name: "type".into(), values: vec!["A".into(), "B".into()] });
+    for d in schema.defs.iter_mut() {
+        if let TypeDef::Object { name, fields, .. } = d {
+            if name == "Query" {
+                fields.push(f("kind", n("type")));
+            }
+        }
+    }
+    vec![prog_on(schema, vec![op("KeywordTypeName", vec![fld("kind"), fld("count")])], |_| {})]
+}
